@@ -160,7 +160,7 @@ def _norm_json(d):
     return json.loads(json.dumps(d, default=default))
 
 
-def round_trip_rules(repo, chk, combos):
+def round_trip_rules(repo, chk, combos, variant="A"):
     from ..concrete import ProgramError
     from .c13 import build_fixture_model
     wfn = repo.func(EIO, "InpFile.write")
@@ -168,7 +168,7 @@ def round_trip_rules(repo, chk, combos):
     chk.fn(wfn, rfn)
     n = 0
     for units, version in combos:
-        tag = "%s, INP %s" % (units, version)
+        tag = "%s, INP %s%s" % (units, version, "" if variant == "A" else ", fixture variant " + variant)
         world, files = inp_world(repo)
         I = world.interp
         to_dict = world.function(NIO, "to_dict")
@@ -182,7 +182,7 @@ def round_trip_rules(repo, chk, combos):
             r = Inp()
             return I.call(I.getattr_(r, "read"), [name], {})
         try:
-            wn = build_fixture_model(repo, world)
+            wn = build_fixture_model(repo, world, variant)
             d1 = _norm_json(to_dict(wn))
             write(wn, "one.inp")
             wn2 = read("one.inp")
